@@ -80,6 +80,50 @@ def cummul(env):
     env.eq('cumops along dim 1', out2, T.stack(acc2, 1))
 
 
+for g_ in ('SE3', 'RxSO3'):
+    def mk(g=g_):
+        @obligation(f'C12.api_layer.{g}.L3', functions=[f'{LT}:LieTensor.cumops', f'{LT}:LieTensor.cummul', f'{LT}:LieTensor.cumprod', f'{LT}:LieTensor.cumops_',
+                                                        f'{LT}:LieTensor.cummul_', f'{LT}:LieTensor.cumprod_', f'{LT}:LieType.cumops', f'{LT}:LieType.cummul',
+                                                        f'{LT}:LieType.cumprod', f'{LT}:LieType.cumops_', f'{LT}:LieType.cummul_', f'{LT}:LieType.cumprod_',
+                                                        f'{BOPS}:cummul', f'{BOPS}:cummul_', f'{BOPS}:cumprod', f'{BOPS}:cumprod_', f'{BOPS}:cumops', f'{BOPS}:cumops_'],
+                    max_paths=4, timeout=300)
+        def api(env):
+            """every spelling of the six operations (method of the LieTensor, classmethod of its type, function of pypose) is the ordered
+            fold; the out-of-place spellings leave their input untouched, the in-place ones overwrite it and return it"""
+            op = env.load(OPS); pp = env.load('pypose'); T = env.T
+            L = 3
+            items = [group_elem(env, g, f'X{i}') for i in range(L)]
+            data = T.stack(items, 0)
+            mulop = lambda a, b: a @ b          # cumops: position i holds x_1 o ... o x_i
+            for left in (True, False):
+                ref = T.stack(seq_fold(op, g, items, left), 0)
+                tag = 'left' if left else 'right'
+                spell = {
+                    'x.cumprod': lambda X: X.cumprod(0, left), 'x.cummul': lambda X: X.cummul(0, left),
+                    'type.cumprod': lambda X: X.ltype.cumprod(X, 0, left), 'type.cummul': lambda X: X.ltype.cummul(X, 0, left),
+                    'pp.cumprod': lambda X: pp.cumprod(X, 0, left), 'pp.cummul': lambda X: pp.cummul(X, 0, left),
+                }
+                spell_ = {
+                    'x.cumprod_': lambda X: X.cumprod_(0, left), 'x.cummul_': lambda X: X.cummul_(0, left),
+                    'type.cumprod_': lambda X: X.ltype.cumprod_(X, 0, left), 'type.cummul_': lambda X: X.ltype.cummul_(X, 0, left),
+                    'pp.cumprod_': lambda X: pp.cumprod_(X, 0, left), 'pp.cummul_': lambda X: pp.cummul_(X, 0, left),
+                }
+                if not left:
+                    spell.update({'x.cumops': lambda X: X.cumops(0, mulop), 'type.cumops': lambda X: X.ltype.cumops(X, 0, mulop), 'pp.cumops': lambda X: pp.cumops(X, 0, mulop)})
+                    spell_.update({'x.cumops_': lambda X: X.cumops_(0, mulop), 'type.cumops_': lambda X: X.ltype.cumops_(X, 0, mulop), 'pp.cumops_': lambda X: pp.cumops_(X, 0, mulop)})
+                for nm, f in spell.items():
+                    X = lie(pp, g, data.clone())
+                    Y = f(X)
+                    env.eq(f'{tag} {nm}: ordered fold at every position', raw(Y), ref)
+                    env.eq(f'{tag} {nm}: input untouched', raw(X), data)
+                for nm, f in spell_.items():
+                    X = lie(pp, g, data.clone())
+                    Y = f(X)
+                    env.eq(f'{tag} {nm}: input overwritten with the ordered fold', raw(X), ref)
+                    env.eq(f'{tag} {nm}: returns the result', raw(Y), ref)
+    mk()
+
+
 @bounded('C12.free_monoid_schedule', functions=[f'{BOPS}:cumops_', f'{BOPS}:cumops'])
 def free_monoid(rng, tier):
     """real code, real torch: every L in 1..N, dims of rank <= 3, left and right"""
